@@ -74,6 +74,7 @@ func clauseActive(tags []string, prop string) bool {
 type knownFinding struct {
 	prop string
 	ob   string
+	root string // optional: only when the obligation arises while verifying this function
 	text string
 }
 
@@ -95,6 +96,8 @@ func readKnownFindings() []knownFinding {
 				kf.prop = f[len("property="):]
 			} else if strings.HasPrefix(f, "obligation=") {
 				kf.ob = f[len("obligation="):]
+			} else if strings.HasPrefix(f, "root=") {
+				kf.root = f[len("root="):]
 			}
 		}
 		kf.text = rest
@@ -123,6 +126,7 @@ func runCheck(args []string) int {
 	os.Setenv("MQVC_PROP_INTERNAL", id)
 	w := loadWorld()
 	w.prop = id
+	w.applyOnlyFor()
 	w.secrets = spec.Secrets
 	w.secretRecv = spec.SecretRecv
 	w.taintRoots = map[string]bool{}
@@ -219,9 +223,9 @@ func runCheck(args []string) int {
 func (run *PropRun) report(w *World, t0 time.Time) int {
 	id := run.Spec.ID
 	known := readKnownFindings()
-	isKnown := func(ob string) *knownFinding {
+	isKnown := func(ob, root string) *knownFinding {
 		for i := range known {
-			if known[i].prop == id && known[i].ob == stripOcc(ob) {
+			if known[i].prop == id && known[i].ob == stripOcc(ob) && (known[i].root == "" || known[i].root == root) {
 				return &known[i]
 			}
 		}
@@ -260,7 +264,7 @@ func (run *PropRun) report(w *World, t0 time.Time) int {
 	}
 	nviol := 0
 	for _, r := range failed {
-		if kf := isKnown(r.Ob.Name); kf != nil {
+		if kf := isKnown(r.Ob.Name, shortFuncName(r.VC.root.String())); kf != nil {
 			if !knownPrinted[kf.ob] {
 				fmt.Printf("KNOWN-FINDING: property=%s %s\n", id, kf.text)
 				knownPrinted[kf.ob] = true
@@ -463,7 +467,11 @@ func (fr *Frame) checkHeapFrame(c *Contract, scope map[string]*Val, name string)
 			if loc.cell {
 				for _, l := range flatten(loc.t) {
 					if l.Key == k {
-						conds = append(conds, neq(a, add(loc.addr, intLit(int64(l.Slot)))))
+						c := eq(a, add(loc.addr, intLit(int64(l.Slot))))
+						if loc.cond != "" {
+							c = and(loc.cond, c)
+						}
+						conds = append(conds, not(c))
 					}
 				}
 				continue
